@@ -516,7 +516,7 @@ void cc_deque_remove_all_cb(CC_Deque *deque, void (*cb) (void*))
  */
 enum cc_stat cc_deque_get_at(CC_Deque const * const deque, size_t index, void **out)
 {
-    if (index > deque->size)
+    if (index >= deque->size)
         return CC_ERR_OUT_OF_RANGE;
 
     size_t i = (deque->first + index) & (deque->capacity - 1);
